@@ -37,7 +37,9 @@ def split_ops(trace):
 
 
 class Matcher:
-    def __init__(self, scenario, result):
+    def __init__(self, scenario, result, coarse=False):
+        self.coarse = coarse
+        self.exp_by_op = {}
         self.sc = scenario
         self.res = result
         self.ref = Ref(scenario)
@@ -71,6 +73,7 @@ class Matcher:
                 self.add("op_exc", n, expected="construction failed", actual="machine exists")
                 break
             exp = fn(op, n)
+            self.exp_by_op[n] = exp
             if op["op"] == "new":
                 if exp.get("exc") is not None:
                     self.dead.add(op["inst"])
@@ -188,7 +191,21 @@ class Matcher:
         items = []
         for xi, ex in enumerate(execs):
             cands = 0
-            for it in ex["items"]:
+            src_items = ex["items"]
+            if self.coarse and src_items:
+                # one item per event execution: order *inside* a transition is not this check's business
+                merged = dict(src_items[0])
+                merged["g"] = "event"
+                merged["members"] = []
+                merged["failing"] = any(it.get("failing") for it in src_items)
+                for it in src_items:
+                    for m in it["members"]:
+                        m = dict(m)
+                        if it["g"] == "guards":
+                            m["optional"] = True
+                        merged["members"].append(m)
+                src_items = [merged]
+            for it in src_items:
                 it = dict(it)
                 it["_x"] = xi
                 it["_left"] = {}
@@ -244,7 +261,12 @@ class Matcher:
                 self.stats["guards_seen"] += 1
                 self.check_bound(ctx, r, placed, guard=True)
                 continue
-            self.check_bound(ctx, r, placed)
+            if self.coarse:
+                b = r["b"]
+                if "event" in b and canon(b["event"]) != canon({"$e": placed["ev"]}):
+                    self.add("bound.event", n, cb=r["c"], expected=placed["ev"], actual=b["event"])
+            else:
+                self.check_bound(ctx, r, placed)
             self.check_member(ctx, r, mem, placed, level)
         for it in items[p:]:
             if not self.satisfied(it):
@@ -252,6 +274,17 @@ class Matcher:
                 self.add("seq.missing", n, group=it["g"], event=it["ev"], cbs=miss, level=level,
                          exec=it["_x"])
                 return
+        if self.coarse:
+            # every callback of event k has ended before the first callback of event k+1 begins
+            prev = None
+            for it in items:
+                if not it["_got"]:
+                    continue
+                fb = min(r["q"] for r, _ in it["_got"])
+                if prev is not None and not prev.get("failing"):
+                    self._barrier(ctx, prev, fb, it)
+                prev = it
+            return
         # barrier: every end of group k precedes every begin of the next non-guard group
         prev = None
         for it in items:
@@ -273,6 +306,8 @@ class Matcher:
 
     def _barrier(self, ctx, prev, first_begin, it):
         for r, _m in prev["_got"]:
+            if r.get("g") in ("cond", "unless"):
+                continue  # whether a started guard is awaited to completion is C05's clause
             e = ctx["ends"].get(r["q"])
             if e is None or e["q"] > first_begin:
                 self.add("barrier", ctx["n"], cb=r["c"], group=prev["g"], next_group=it["g"],
@@ -293,7 +328,7 @@ class Matcher:
         n = ctx["n"]
         # nested events: in rtc mode nothing may run inside the callback
         kids = ctx["kids"].get(r["q"], [])
-        if mem["nested"]:
+        if mem.get("nested"):
             self.stats["nested_execs"] += len(mem["nested"])
             self.walk(ctx, kids, mem["nested"], level + 1)
         elif kids:
@@ -410,7 +445,7 @@ def same_result(expected, nb, actual):
             and sorted(canon(x) for x in actual[nb:]) == sorted(canon(x) for x in ev[nb:]))
 
 
-def compare(scenario, result, stop_at_first=True):
-    m = Matcher(scenario, result)
+def compare(scenario, result, stop_at_first=True, coarse=False):
+    m = Matcher(scenario, result, coarse=coarse)
     m.run(stop_at_first=stop_at_first)
     return m.findings, m.stats
